@@ -1,7 +1,7 @@
 # Table read by ./check: one entry per property; each run entry is one rapid test
 # (or native fuzz target) with its per-tier case count, shard count and watchdog.
 PROPS = {}
-HOOK_COMMITS = ["f1402db2", "bf53f84e", "a3f07f89"]
+HOOK_COMMITS = ["f1402db2", "bf53f84e", "a3f07f89", "6120fb80"]
 NOT_APPLICABLE = {}
 
 PROPS["C10"] = dict(
@@ -365,6 +365,7 @@ PROPS["C17"] = dict(
     runs=[
         dict(test="TestC17Lifecycle", race={"thorough": True}, quick=dict(checks=16000, shards=16, timeout=300), thorough=dict(checks=320000, shards=16, timeout=3000)),
         dict(test="TestC17NestedGroup", race=dict(quick=True, thorough=True), quick=dict(checks=3200, shards=8, timeout=300), thorough=dict(checks=160000, shards=16, timeout=3000)),
+        dict(test="TestC17NestedEndsDuringCommit", quick=dict(checks=1, shards=1, timeout=120), thorough=dict(checks=1, shards=1, timeout=120)),
     ],
 )
 
